@@ -427,6 +427,9 @@ func parse_regexp_groups(regexp_token *Token, regexp string, index int) (AstLite
 		return nil, index, NewParseError(regexp_token, "Invalid marker for group")
 	}
 
+	// groups are numbered by their opening parenthesis
+	capture_group_number += 1
+	group_number := capture_group_number
 	subexpr, next_index, err := parse_regexp_disjunction(regexp_token, regexp, index)
 	if err != nil {
 		return nil, next_index, err
@@ -434,6 +437,5 @@ func parse_regexp_groups(regexp_token *Token, regexp string, index int) (AstLite
 	if next_index >= len(regexp) || regexp[next_index] != ')' {
 		return nil, next_index, NewParseError(regexp_token, "Expected end parenthesis")
 	}
-	capture_group_number += 1
-	return &AstSubExpr{[]AstExpression{&AstDec{fmt.Sprintf("_%d", capture_group_number), &AstSubExpr{subexpr}}}}, next_index + 1, nil
+	return &AstSubExpr{[]AstExpression{&AstDec{fmt.Sprintf("_%d", group_number), &AstSubExpr{subexpr}}}}, next_index + 1, nil
 }
